@@ -61,6 +61,8 @@ var placedFns = []placedFn{
 	{"writer/utils/unmarshal/builder.go", "parserDoer", "calculateProfileSize", "profile"},
 	{"writer/utils/unmarshal/builder.go", "parserDoer", "onEntries", "common"},
 	{"writer/utils/unmarshal/builder.go", "parserDoer", "onSpan", "common"},
+	{"writer/utils/unmarshal/builder.go", "parserDoer", "maybeAddFp", "common"},
+	{"writer/utils/unmarshal/builder.go", "", "validUTF8Labels", "common"},
 	{"writer/utils/unmarshal/builder.go", "", "Build", "common"},
 	{"writer/utils/unmarshal/builder.go", "var", "withBufferedBody", "common"},
 	{"writer/utils/unmarshal/builder.go", "", "withParsedBody", "common"},
@@ -99,6 +101,7 @@ var placedFns = []placedFn{
 	{"writer/utils/unmarshal/otlpUnmarshal.go", "", "otlpGetServiceNames", "otlptraces"},
 	{"writer/utils/unmarshal/otlpUnmarshal.go", "", "populateServiceNames", "otlptraces"},
 	{"writer/utils/unmarshal/otlpUnmarshal.go", "", "getOtlpAttr", "otlptraces"},
+	{"writer/utils/unmarshal/otlpUnmarshal.go", "", "otlpAttrIdx", "otlptraces"},
 	{"writer/utils/unmarshal/golangPprof.go", "pProfProtoDec", "Decode", "profile"},
 	{"writer/utils/unmarshal/golangPprof.go", "Decompressor", "Decompress", "profile"},
 	{"writer/utils/unmarshal/golangPprof.go", "Decompressor", "readBytes", "profile"},
